@@ -105,7 +105,7 @@ def short_deser(m):
 def one_case(ctx, out, cfg, spec, tree, cls, km_name, vm_name, compression, use_path, tmpdir, counter):
     pool = ctx.pool
     typed = isinstance(tree, TypedTree)
-    m = S.Mappers(pool)
+    m = S.Mappers(pool, strict_plain=True)
     derived = cls is not None
     needs_mapper = not cfg.endswith("str")
     key_map = S.KEY_MAPS[km_name]
